@@ -140,7 +140,9 @@ def r1_merge_chain(ctx):
         calls = {c for c, _, _ in slice_calls(sl)}
         strs = slice_strs(ctx.fb, body, sl)
         okc = need_calls <= calls
-        oks = all(any(s == x or (x == '.yml' and s.endswith('.yml')) for s in strs) for x in need_strs)
+        # `<profile>.yml`: the literal may be one piece of the format string or split around a named constant (`"{}.{EXT}"`, EXT = "yml")
+        yml = lambda: any(s.endswith('.yml') for s in strs) or any(s == 'yml' for s in strs)
+        oks = all((yml() if x == '.yml' else any(s == x for s in strs)) for x in need_strs)
         extra = ''
         if name == 'base file':
             oks = oks and not any(s.endswith('.yml') and s != 'base.yml' for s in strs) and 'core::convert::AsRef::as_ref' not in calls
